@@ -16,6 +16,7 @@ type Val struct {
 	T string     // SMT term
 	S string     // SMT sort
 	G types.Type // Go type, when known
+	Org *origin  // where the value was read from (field / map entry), for hook matching of cached values
 	E string     // element sort for slices whose Go type is unknown
 }
 
@@ -342,6 +343,12 @@ type deferred struct {
 	run func(st *State, x *Exec, k func(*State))
 }
 
+// origin: the expression a value was read from and the values its identifiers had then.
+type origin struct {
+	expr ast.Expr
+	env  map[types.Object]Val
+}
+
 type State struct {
 	vars    map[types.Object]Val
 	heap    map[string]Val
@@ -359,6 +366,7 @@ type State struct {
 	polls   []poll                  // stop polls passed since the head of the innermost loop (C16)
 	loopBinds map[string]Val        // $i<ord> / $range<ord> of the enclosing loops
 	nameLog []string                // (term, constant) pairs in the order they were named
+	inlineEntry *State              // state at the entry of the function being executed inline (old() of its loop invariants)
 }
 
 // poll is a point where the goroutine looks at the stop signals: a select with stop cases
@@ -403,6 +411,7 @@ func (s *State) fork() *State {
 	n.trail = s.trail[:len(s.trail):len(s.trail)]
 	n.polls = s.polls[:len(s.polls):len(s.polls)]
 	n.nameLog = s.nameLog[:len(s.nameLog):len(s.nameLog)]
+	n.inlineEntry = s.inlineEntry
 	if s.writes != nil {
 		n.writes = make(map[string][]wr, len(s.writes))
 		for k, v := range s.writes {
